@@ -10,6 +10,7 @@ RULE = ('case = (listener, generated datapoint sequence, batching, encoding choi
         'distinct = distinct streams')
 RULE_MORE = (' Further families: python2-style pickle frames (8-bit names), names up to 16 kB, frames of 1000-12000 datapoints with calls deferred through reactor.callLater run between reads, METRIC_CLIENT_IDLE_TIMEOUT with time passing on a virtual clock (UDP port stand-in), the sender closing in the middle of the stream.')
 RULE_MORE = RULE_MORE + ' Rounds 10-11: a line beyond the 16384-byte limit between well-formed ones; datagrams of exactly 512..65507 bytes with and without a final terminator; names with invisible characters (U+FEFF ...) in front, inside and at the end.'
+RULE_MORE = RULE_MORE + ' Round 12: several clients of one listener at the same time, one of them going away mid-stream.'
 RULE = RULE + RULE_MORE
 EXHAUSTIVE = {'quick': True, 'thorough': True}
 EXHAUSTIVE_OVER = 'single cut positions of every generated TCP stream; cut pairs of streams <= 48 bytes'
